@@ -32,6 +32,9 @@ def keep (onlyNet onlyClient : Bool) (r : StepRec) : Bool :=
 
 def Args.keep (a : Args) (r : StepRec) : Bool := Sim.keep a.onlyNetworkActivity a.onlyClientEvents r
 
+/-- the same arguments with both output filters switched off -/
+def Args.unfiltered (a : Args) : Args := { a with onlyClientEvents := false, onlyNetworkActivity := false }
+
 /-! ### parse_trace -/
 
 /-- one line of the trace: time in ns and direction (`true` = sent by the client) -/
